@@ -118,6 +118,44 @@ pub fn plans(ctx: &WorkerCtx) -> Vec<Plan> {
         }
     }
     v.push(Plan { name: "all ordered triples of signal probes".into(), cfgs: three, alpha_for: af(false), opts: Opts { depth: if q { 3 } else { 5 }, full_positions: 6, ..base.clone() }, walk: None });
+    // machine ids beyond one byte (and, thorough, beyond two bytes): signal probes at a low and a high index among listeners;
+    // all transitions involved have probability 1, so a one-word RNG menu loses nothing
+    {
+        let sizes: Vec<(usize, usize, usize)> = if q { vec![(258, 1, 257), (258, 0, 256)] } else { vec![(258, 1, 257), (258, 0, 256), (258, 2, 3), (515, 3, 259), (65538, 1, 65537)] };
+        let mut many = vec![];
+        for (n, lo, hi) in sizes {
+            for ka in 0..6 {
+                for kb in 0..6 {
+                    if n > 1000 && (ka + kb) % 3 != 0 {
+                        continue;
+                    }
+                    let mut ms = vec![fam::signaller(4); n];
+                    ms[lo] = fam::signaller(ka);
+                    ms[hi] = fam::signaller(kb);
+                    many.push((Cfg::new(format!("{n} machines: sig[k{ka}] at {lo}, sig[k{kb}] at {hi}, listeners elsewhere, fw(0,0)"), ms, 0.0, 0.0), lo, hi));
+                }
+            }
+        }
+        let idx: std::collections::HashMap<String, (usize, usize)> = many.iter().map(|(c, lo, hi)| (c.label.clone(), (*lo, *hi))).collect();
+        let alpha = move |c: &Cfg| -> Alphabet {
+            use maybenot::event::TriggerEvent as T;
+            let (lo, hi) = idx[&c.label];
+            let mut singles = vec![T::NormalRecv, T::TunnelRecv, T::NormalSent];
+            let mut ids = vec![lo, hi, hi % 256, hi % 65536];
+            ids.sort();
+            ids.dedup();
+            for id in ids {
+                singles.push(T::PaddingSent { machine: mid(id) });
+                singles.push(T::TimerEnd { machine: mid(id) });
+            }
+            let mut batches: Vec<Vec<T>> = vec![vec![]];
+            batches.extend(singles.iter().map(|e| vec![e.clone()]));
+            batches.push(vec![T::PaddingSent { machine: mid(hi) }, T::NormalRecv]);
+            batches.push(vec![T::NormalRecv, T::PaddingSent { machine: mid(lo) }, T::PaddingSent { machine: mid(hi) }]);
+            Alphabet { batches, deltas: vec![0] }
+        };
+        v.push(Plan { name: "signal probes at machine indices on both sides of 256 (thorough: 65536) among listeners".into(), cfgs: many.into_iter().map(|(c, _, _)| c).collect(), alpha_for: Box::new(alpha), opts: Opts { depth: if q { 3 } else { 4 }, n32: 1, n64: 1, full_positions: 0, max_deviations: 0, ..base.clone() }, walk: None });
+    }
     let g2: Vec<_> = fam::g2(if q { 1499 } else { 149 }, 4).into_iter().filter(|(_, m)| format!("{:?}", m).contains("4294967294")).collect();
     let mut lib = g2.clone();
     lib.extend(sig.iter().cloned());
